@@ -90,8 +90,23 @@ TDims ==
            /\ \A i \in 1..e.size : e.vals[i] = FieldsOf(e.dim, e.p)[i]     \* no panic (-999), the matching field
            /\ e.xy = << e.p[1], e.p[2] >>
 
+\* the points of a multipoint / polyline reached through its geo-traits view
+PointTypeOf(t) == CASE t \in {8, 3} -> 1 [] t \in {28, 23} -> 21 [] t \in {18, 13} -> 11
+TView ==
+    /\ Ev("view")
+    /\ LET e == Rec[l]
+           s == e.shape
+       IN  /\ ~e.panic
+           /\ Len(e.coords) = Len(s.parts)
+           /\ \A i \in 1..Len(s.parts) :
+                /\ Len(e.coords[i]) = Len(s.parts[i])
+                /\ \A j \in 1..Len(s.parts[i]) :
+                     LET q == e.coords[i][j]
+                     IN  /\ q.dim \in DimsAllowed(PointTypeOf(s.t))
+                         /\ q.vals = FieldsOf(q.dim, s.parts[i][j])
+
 Init == l = 2
-Next == TReset \/ TShape2Geo \/ TGeo2Shape \/ TDims
+Next == TReset \/ TShape2Geo \/ TGeo2Shape \/ TDims \/ TView
 Spec == Init /\ [][Next]_l
 
 Accepted ==
